@@ -66,6 +66,12 @@ func c18Pinning(canonOnly bool) []c18Atom {
 			out = append(out, c18Atom{n: gen.Bin("<=", gen.Str(l), K()), kind: "ge", lo: sp(l)})
 			out = append(out, c18Atom{n: gen.Bin(">=", gen.Str(l), K()), kind: "le", hi: sp(l)})
 		}
+		// literals with a blank at either end pin what they spell (wave 15, C18-ab: trimmed by the lexer)
+		out = append(out, c18Atom{n: gen.Bin("=", K(), gen.Str(" a")), kind: "eq", set: []string{" a"}})
+		out = append(out, c18Atom{n: gen.Bin("^=", K(), gen.Str("a ")), kind: "prefix", pre: "a "})
+		out = append(out, c18Atom{n: gen.In(K(), gen.Str("a "), gen.Str("b ")), kind: "in", set: []string{"a ", "b "}})
+		out = append(out, c18Atom{n: gen.Between(K(), gen.Str("a "), gen.Str("a 9")), kind: "between", lo: sp("a "), hi: sp("a 9")})
+		out = append(out, c18Atom{n: gen.Bin(">=", K(), gen.Str("c ")), kind: "ge", lo: sp("c ")})
 		// the empty literal pins the (single) empty key like any other literal
 		out = append(out, c18Atom{n: gen.Bin("=", K(), gen.Str("")), kind: "eq", set: []string{""}})
 		out = append(out, c18Atom{n: gen.In(K(), gen.Str("")), kind: "in", set: []string{""}})
